@@ -138,8 +138,9 @@ func machine(input OmegaInput) (output OmegaOutput) {
 		}
 	}
 
-	var u Memory
-	_, exitReason := DeBlobProgramCode(p)
+	// the machine starts with an entirely inaccessible, zeroed RAM
+	u := Memory{Pages: make(map[uint32]*Page)}
+	program, exitReason := DeBlobProgramCode(p)
 	// otherwise if deblob(p) = PANIC
 	if exitReason == ExitPanic {
 		input.VM.Registers[7] = HUH
@@ -153,6 +154,7 @@ func machine(input OmegaInput) (output OmegaOutput) {
 	input.VM.Registers[7] = n
 	input.Addition.IntegratedPVMMap[n] = IntegratedPVMType{
 		ProgramCode: ProgramCode(p),
+		Program:     &program,
 		Memory:      u,
 		PC:          ProgramCounter(i),
 	}
@@ -388,9 +390,8 @@ func invoke(input OmegaInput) (output OmegaOutput) {
 		}
 	}
 	// psi preprocess
-	tmpProgram := Program{
-		InstructionData: input.Addition.IntegratedPVMMap[n].ProgramCode,
-	}
+	// the machine runs the program deblobbed by `machine` (code, bitmask, jump table)
+	tmpProgram := *input.Addition.IntegratedPVMMap[n].Program
 	tempMemory := input.Addition.IntegratedPVMMap[n].Memory
 	// wrap m[n]_p (program),  w (registers),  m[n]_u (memory),   g (gas) into NewHost
 	tempHost := NewHost(&tmpProgram, w, &tempMemory, Gas(g), HostCallArgs{}, nil)
@@ -416,7 +417,7 @@ func invoke(input OmegaInput) (output OmegaOutput) {
 	tmp := input.Addition.IntegratedPVMMap[n]
 	tmp.Memory = *tempHost.Interpreter.Memory
 	if c.GetReasonType() == HOST_CALL {
-		tmp.PC = pcPrime + 1 + ProgramCounter(skip(int(pcPrime), input.Addition.Program.Bitmasks))
+		tmp.PC = pcPrime + 1 + ProgramCounter(skip(int(pcPrime), tmpProgram.Bitmasks))
 	} else {
 		tmp.PC = pcPrime
 	}
